@@ -48,6 +48,7 @@ type mv struct {
 	I    int    `json:"i"`
 	ID   int    `json:"id,omitempty"`   // update id for w / x
 	Mask int    `json:"mask,omitempty"` // s: bit k = scripted peer Xk does not answer
+	Rem  bool   `json:"rem,omitempty"`  // w on a set: remove element ID instead of adding it
 }
 
 type request struct {
@@ -535,7 +536,14 @@ func (ex *execution) move(rq mv, resp *step) error {
 	var targets []int
 	switch rq.Kind {
 	case "w":
-		if err := ex.reps[rq.I].WriteValue(iface, opValue(ex.vt, rq.ID)); err != nil {
+		op := opValue(ex.vt, rq.ID)
+		if rq.Rem {
+			op = tla.MakeRecord([]tla.RecordField{
+				{Key: tla.MakeString("cmd"), Value: tla.MakeNumber(2)},
+				{Key: tla.MakeString("elem"), Value: tla.MakeNumber(int32(rq.ID))},
+			})
+		}
+		if err := ex.reps[rq.I].WriteValue(iface, op); err != nil {
 			return err
 		}
 	case "c":
